@@ -112,7 +112,7 @@ def _obb(op, **kw):
     d.update(kw)
     if _T: d["timeout"] = _T
     return d
-BSMALL = ("PULLUP",)
+BSMALL = ("PULLUP", "ADD_BUFFER_REFERENCE")
 
 LOPS = ["NEW_FREE", "ENABLE_DISABLE", "GETTERS", "SET_CB", "ACCEPT"]
 LACTS = ["NONE", "DISABLE", "FREE", "CLEAR_CB", "ENABLE"]
